@@ -21,6 +21,7 @@ type FoundViolation struct {
 	Trace    []string `json:"trace"`
 	Cost     int      `json:"deviations"`
 	Repro    string   `json:"repro,omitempty"`
+	Input    any      `json:"input,omitempty"`
 }
 
 type ScenarioStats struct {
